@@ -3,6 +3,8 @@ import Gv.Model.Eval
 import Gv.Driver.Gen
 import Gv.Spec.Structural
 import Gv.Model.PlanCheck
+import Gv.Model.PlanCheckU
+import Gv.Model.PathCheck
 
 namespace Gv.Driver
 open Gv Gv.Sexp Gv.Eval
@@ -170,7 +172,10 @@ def handleEval (req : Sexp) : Sexp :=
       | [] => mkList "r" [mkList "stuck" [.str "bad call"]])
     -- is the whole program inside the fragment of the composite theorem (Gv.Props.C02.C02_composite)?
     let wantFrag := wantSpec || (fieldArgs req "spec").any (fun x => asString x == "fragment")
-    let frag := if wantFrag then [mkList "fragment" [.atom (toString (PlanCheck.checkProg prog))]] else []
+    -- … of the update / skipped-field composites (C10_composite, C05_composite_ignored_unassigned), and do all error sites
+    -- carry their position (C07_path_is_position)?
+    let frag := if wantFrag then [mkList "fragment" [.atom (toString (PlanCheck.checkProg prog)),
+      .atom (toString (PlanCheck.checkProgU prog)), .atom (toString (PathCheck.pathsOK prog))]] else []
     mkList "ok" (outs ++ frag ++ symCompare gc ms req)
 
 end Gv.Driver
